@@ -94,6 +94,7 @@ SCRIPTS = {
     "hebrew": "אבגדהוזחטיכלמנסעפצקרשת ",
     "accented": "éèêëàâäôöùûüçñáíóúÅåØøßÆæ ",
     "astral": "😀🏠🔥🌡💡🚿🛁",
+    "bmp3": "€中日本語한글ไทย₪✓",          # three-byte UTF-8
 }
 
 
@@ -113,10 +114,12 @@ def gen_name(rng) -> str:
         alpha = SCRIPTS["hebrew"]
     elif s < 0.75:
         alpha = SCRIPTS["accented"]
-    elif s < 0.85:
+    elif s < 0.82:
         alpha = SCRIPTS["astral"]
+    elif s < 0.9:
+        alpha = SCRIPTS["bmp3"]
     else:
-        alpha = SCRIPTS["ascii"] + SCRIPTS["hebrew"] + SCRIPTS["accented"] + SCRIPTS["astral"]
+        alpha = SCRIPTS["ascii"] + SCRIPTS["hebrew"] + SCRIPTS["accented"] + SCRIPTS["astral"] + SCRIPTS["bmp3"]
     name = "".join(rng.choice(alpha) for _ in range(n))
     return name
 
@@ -207,7 +210,7 @@ def gen_reply_fault(rng, kinds: List[str], reply_len_hint: int = 56) -> Optional
     if k == "eof":
         return {"mode": "eof", "delay": d}
     if k == "rst":
-        return {"mode": "rst", "delay": d}
+        return {"mode": "rst", "delay": d, "err": rng.choice(["reset", "reset", "timedout", "hostunreach", "netunreach", "pipe"])}
     if k == "truncate":
         return {"mode": "truncate", "n": rng.choice([1, 2, 7, 8, 11, 12, 13, 40, 44, 74, 75, 76, 77, 80, 90, 100, 106,
                                                      rng.randrange(1, 110)]), "delay": d}
@@ -324,6 +327,9 @@ def make_clients(rng, n: int, kinds: Optional[List[str]] = None, same_device: bo
             di = len(devices) - 1
         cl = {"type": 1 if kind in ("heater", "plug") else 2, "device": di, "id": gen_id(rng), "key": gen_key(rng),
               "devkind": kind}
+        if i > 0 and clients[0]["devkind"] == kind and rng.random() < 0.3:
+            # two API objects for one and the same device (the normal case in a home-automation process)
+            cl["id"], cl["key"], cl["device"] = clients[0]["id"], clients[0]["key"], clients[0]["device"]
         if kind == "breeze":
             cl["irset"] = irsets.gen_irset(rng)
             devices[di]["state"]["t_remote"] = cl["irset"]["IRSetID"]
@@ -832,11 +838,49 @@ def life_steps(rng, actions, cl) -> List[dict]:
             steps.append({"kind": k, "args": {}, "replies": [rng.choice([None, {"mode": "eof"}]), {"mode": "eof"}]})
         elif a == "op_rst":
             k = "get_state" if t1 else ("get_shutter_state" if cl["devkind"] == "runner" else "get_breeze_state")
-            steps.append({"kind": k, "args": {}, "replies": [rng.choice([None, {"mode": "rst"}]), {"mode": "rst"}]})
+            how = {"mode": "rst", "err": rng.choice(["reset", "reset", "timedout", "hostunreach", "netunreach", "pipe"])}
+            steps.append({"kind": k, "args": {}, "replies": [rng.choice([None, dict(how)]), dict(how)]})
         steps[-1]["client"] = 0
         if rng.random() < 0.3:
             steps[-1]["gap"] = rng.choice([0.0, 0.5, 30.0])
     return steps
+
+
+def gen_c18_two(rng) -> Dict[str, Any]:
+    """Two API objects (same device, same id and key) going through their lifecycles side by side."""
+    cfg = base_config(rng)
+    kind = rng.choice(["heater", "plug", "runner", "breeze"])
+    devices, clients = make_clients(rng, 2, [kind, kind], same_device=True)
+    clients[1]["id"], clients[1]["key"], clients[1]["device"] = clients[0]["id"], clients[0]["key"], 0
+    devices = devices[:1]
+    cfg["devices"], cfg["clients"] = devices, clients
+    per = []
+    for ci in (0, 1):
+        actions = []
+        connected = False
+        for _ in range(rng.randrange(2, 9)):
+            opts = [a for a in LIFE_ALPHA if (
+                (a in ("connect", "aenter", "refused") and not connected) or
+                (a in ("disconnect", "aexit", "aexit_exc")) or
+                (a.startswith("op_") and connected))]
+            a = rng.choice(opts)
+            actions.append(a)
+            if a in ("connect", "aenter"):
+                connected = True
+            elif a in ("disconnect", "aexit", "aexit_exc"):
+                connected = False
+        st = life_steps(rng, actions, clients[ci])
+        for s_ in st:
+            s_["client"] = ci
+        st.append({"kind": "disconnect", "client": ci})
+        per.append(st)
+    steps: List[dict] = []
+    idx = [0, 0]
+    while idx[0] < len(per[0]) or idx[1] < len(per[1]):
+        i = rng.choice([j for j in (0, 1) if idx[j] < len(per[j])])
+        steps.append(per[i][idx[i]])
+        idx[i] += 1
+    return {"engine": "tcp", "config": cfg, "steps": uidify(steps)}
 
 
 def gen_c18(rng, index: Optional[int] = None, maxlen: int = 4, long: bool = False) -> Dict[str, Any]:
